@@ -3,6 +3,7 @@ import random
 from vlib.driver import Plan, H
 from vlib.catalog import *
 from props.c14 import range_setup, EXPR_SPELLINGS, expr_decl
+from props import strprops
 
 USE = "use arbitrary::{Arbitrary, Unstructured};"
 
@@ -229,6 +230,7 @@ def generate(tier, seed):
                 hsrc = float_harness(d, hn, region)
                 plan.add(H(hn, "finding", dict(d.describe(), region=region), finding=key))
                 src.append("pub mod %s {\n    use super::*;\n    use nutype::nutype;\n    %s\n    %s\n%s\n%s}\n" % (d.modname(), USE, d.prelude(), indent(d.attr()), hsrc))
+    src.append(strprops.gen_c09(plan, tier, rng))
     src.append(OTHER)
     plan.add(H("c09_other", "main", {"case": "struct inner type with sanitizer; generic G<T>: inner arbitrary + new, all 4-byte buffers"}))
     plan.source = "\n".join(src)
@@ -236,4 +238,8 @@ def generate(tier, seed):
                    "floats": "all byte buffers of length <= 2*size_of; bounds in the stated region (benign region claimed; the regions of the known findings are explored by their own harnesses)",
                    "float gap": "bound values outside both the benign region and the finding regions are not explored"}
     plan.assumptions = ["valid set non-empty (property precondition)", "non-NaN float bounds", "arbitrary 1.3.2 as pinned in /repo/Cargo.lock"]
+    plan.kani_flags = ["-Z", "stubbing"]
+    plan.pre_steps = plan.pre_steps + [strprops.model_validation_step]
+    plan.assumptions = plan.assumptions + strprops.ASSUMPTIONS + ["String Arbitrary: only declarations whose target length is a constant (len_char_min == len_char_max, or not_empty + len_char_max = 1); byte streams of 4-byte words encoding ASCII characters (concrete whitespace, symbolic fillers); String::push stubbed by a one-byte ASCII model"]
+    plan.bounds["strings"] = "String Arbitrary with constant target length <= 2 on ASCII word streams of <= 5 characters; symbolic target lengths and non-ASCII characters are outside the claim"
     return plan
